@@ -49,6 +49,11 @@ def rnd_tree(rng, depth):
         if rng.random() < 0.3: items[rng.randrange(len(items))] = rnd_tree(rng, depth - 1)
         lhs = rng.choice([plain_item(rng), ("lit", rng.choice(["0", "1", "2", "5"])), rnd_tree(rng, depth - 1)])
         return ("nbin" if rng.random() < 0.3 else "bin", "in", lhs, ("list", items))
+    if r < 0.83:
+        # plain names next to assignments of those names, in one list or one argument list
+        els = [rng.choice([("ref", "v"), ("ref", "w"), ("ref", rng.choice(FN)),
+                           ("bin", rng.choice(["=", "+=", "*="]), ("ref", rng.choice(["v", "w"])), ("lit", rng.choice(["1", "2", "5"])))]) for _ in range(rng.randint(2, 5))]
+        return ("list", els) if rng.random() < 0.5 else ("call", rng.choice(FN + ["g0", "max"]), els)
     if r < 0.87: return ("list", [rnd_tree(rng, depth - 1) for _ in range(rng.randint(0, 3))])
     if r < 0.91: return ("map", [(rnd_tree(rng, depth - 1), rnd_tree(rng, depth - 1)) for _ in range(rng.randint(1, 2))])
     if r < 0.94: return ("un", rng.choice(["!", "-", "-", "not", "+", "AND", "OR"] if rng.random() < 0.4 else ["!", "-"]), rnd_tree(rng, depth - 1))
@@ -83,6 +88,15 @@ class P:
         same += [[("list", [F, F, F])], [("call", "f1", [F, F])], [("map", [(F, F), (F, F)])], [("tern", F, F, F)], [("call", "max", [F, F])],
                  [("bin", "=", ("ref", "v"), ("bin", "-", F, F)), ("ref", "v")], [("un", "-", F), ("post", F, "++")],
                  [("bin", "in", F, ("list", [F, F]))], [("bin", "<=", F, F), ("bin", "=", ("ref", "w"), ("lit", "true"))]]
+        # a name read in the same list / argument list / map in which an element to its LEFT assigns it (or re-binds a context
+        # function's name to a value): each read sees what the elements before it left behind
+        V, W = ("ref", "v"), ("ref", "w")
+        asg = lambda tgt, op, val: ("bin", op, tgt, ("lit", val))
+        same += [[("list", [asg(V, "=", "2"), V, W])], [("list", [V, asg(V, "+=", "1"), V, asg(V, "+=", "1"), V])],
+                 [("call", "f1", [V, asg(V, "+=", "1"), V, asg(V, "+=", "1"), V])], [("call", "g0", [asg(W, "=", "5"), W, V])],
+                 [("call", "max", [V, asg(V, "=", "9"), V])], [("list", [F, asg(F, "=", "1"), F, V])], [("list", [W, asg(W, "=", "1"), W, V, asg(V, "=", "0"), V])],
+                 [("map", [(asg(V, "=", "2"), V), (V, W)])], [("call", "f2", [("list", [V, asg(V, "*=", "3"), V]), V])],
+                 [("list", [V, W, asg(W, "=", "7"), ("call", "f0", [W, V])]), ("list", [V, W])]]
         crafted = list(same)
         for _ in range(ntrees):
             stmts = crafted.pop() if crafted else [rnd_tree(rng, rng.choice([2, 3, 4])) for _ in range(rng.choice([1, 1, 2, 3]))]
